@@ -159,9 +159,9 @@ theorem step_coherent (s : St) (op : GOp) (hs : Coherent s) (hsafe : Safe s op =
     simp only [step]
     split
     · exact hs
-    · split
-      · exact hs
-      · split <;> exact hs
+    · rename_i x hx
+      have hx' := coherent_gset _ _ g _ hs (coh_fillVals _ _ (hs x (List.mem_of_getElem? hx)))
+      split <;> exact hx'
   | setItemG g pos t => simp [Safe] at hsafe
   | copyG g =>
     simp only [step]
